@@ -490,6 +490,30 @@ def check_vm_property(ctx):
                 elif c['path']:
                     jobs.append((c, ['s'] * 1200))
                     jobs.append((c, ['t1'] + ['e'] * 150))
+    if pid in ('C19', 'C05', 'C17'):
+        # frames at the edges of small integer types: the callee's frame size (the count of its PREPARE) raised to
+        # 255 … 70000 registers in otherwise unchanged compiler output; a few calls in a loop
+        src = "PROGRAM f IN a OUT r DO r := a + 1 END\nx1 := 3;\nLOOP x1 DO x2 := RUN f WITH x2 END END\n"
+        o = impl(ctx, ['GEN ' + files_req(b'm', {b'm': src.encode()})])[0]
+        if not is_crash(o) and fields(o).get('ok') == '1':
+            f0 = fields(o)
+            ins = f0['code'].split(',')
+            calls = [i for i, x in enumerate(ins) if x.startswith('PREP.') and i > 0]
+            for size in (255, 256, 257, 32767, 32768, 65535, 65536, 65537, 70000):
+                if len(calls) != 1:
+                    break
+                parts = ins[calls[0]].split('.')
+                ins2 = list(ins)
+                ins2[calls[0]] = '.'.join([parts[0], str(size)] + parts[2:])
+                f2 = dict(f0)
+                f2['code'] = ','.join(ins2)
+                c = {'defs': None, 'text': src + '// callee frame size raised to %d' % size, 'prog': Prog(f2)}
+                c['path'] = get_path(ctx, [c['prog']], 200)[0]
+                if isinstance(c['path'], tuple):
+                    ctx.violation('vm-crash', 'the VM crashed with a callee frame of %d registers: %s' % (size, c['path'][1][:200]), {'source': c['text'], 'history': ['s'] * 200})
+                elif c['path']:
+                    jobs.append((c, ['s'] * 60))
+                    jobs.append((c, ['t1', 'e', 'e', 'e', 'e', 't0', 'e', 'r', 'e']))
     if pid == 'C20':
         literal_guard_oracle(ctx)
         for src in ["x0 := 2147483646;\nx0 := x0 + 5\n", "x0 := 2147483646; x1 := x0 + 2147483646; x2 := x1 + 2147483646\n",
